@@ -43,6 +43,7 @@ Tpl(name) ==
       [] name = "MC"  -> <<PMsg, PPos>>
       [] name = "KM"  -> <<PKey, PMsg>>
       [] name = "KC"  -> <<PKey, PMsg>>
+      [] name = "MP"  -> <<[k |-> "msgpad"], PPos>>          \* {msg:7}{pos}: the message padded with blanks to 7 columns (the blanks wrap like any text)
 
 (* Text a template part expands to.  Tabs in the message, the prefix,      *)
 (* template literals and custom-key output all become tabw spaces (C16).   *)
@@ -53,6 +54,7 @@ PartText(p, b) ==
       [] p.k = "pos"    -> Dec(b.pos)
       [] p.k = "len"    -> Dec(IF b.len = NoLen THEN b.pos ELSE b.len)   \* missing length renders as the position
       [] p.k = "key"    -> TabX(<<120, TAB, 121>>, b.tabw)
+      [] p.k = "msgpad" -> LET v == TabX(b.msg, b.tabw) IN IF Cols(v) < 7 THEN v \o [j \in 1..(7 - Cols(v)) |-> SP] ELSE v
 
 (* Rendering of a bar: in-order concatenation of the parts, one output     *)
 (* line per template line, embedded newlines of the texts start new lines. *)
